@@ -163,6 +163,22 @@ func Build() error {
 		if err != nil {
 			return err
 		}
+		if err := file.WriteFile([]byte(profile)); err != nil {
+			return err
+		}
+	}
+
+	// The directives only once every file is built: a profile that is read
+	// by another one (stack, exec) is read in its built form, whatever the
+	// names of the two files
+	for _, file := range files {
+		if !file.Exist() {
+			continue
+		}
+		profile, err := file.ReadFileAsString()
+		if err != nil {
+			return err
+		}
 		profile, err = directive.Run(file, profile)
 		if err != nil {
 			return err
